@@ -87,3 +87,17 @@ Definition minimize_model_agrees (A R : enfa N) : bool :=
   | _ => Nat.eqb (length (e_states M)) (length (dedup (e_states R))) && Nat.eqb (length (e_delta M)) (length (dedup (e_delta R)))
          && Nat.eqb (length (e_finals M)) (length (dedup (e_finals R)))
   end.
+
+(* ---- C05: the token sequence of str(regex) against the model pr_py ---- *)
+Definition tok_eqb (a b : tok) : bool :=
+  match a, b with
+  | TSym x, TSym y => N.eqb x y
+  | TEps, TEps | TLp, TLp | TRp, TRp | TStar, TStar | TUnion, TUnion | TConcat, TConcat => true
+  | _, _ => false
+  end.
+Fixpoint toks_same (l1 l2 : list tok) : bool :=
+  match l1, l2 with
+  | [], [] => true
+  | a :: r1, b :: r2 => tok_eqb a b && toks_same r1 r2
+  | _, _ => false
+  end.
